@@ -257,7 +257,8 @@ def ch_e2e(ctx, cases=None) -> Channel:
     temps = vod_templates()
     given = cases
     cases = []
-    for stream in ("bbb", "tears", "syn1", "syn2", "syn3", "syn4", "syn5", "syn6", "syn7", "syn8", "syn9", "bbbd"):
+    for stream in ("bbb", "tears", "syn1", "syn2", "syn3", "syn4", "syn5", "syn6", "syn7", "syn8", "syn9", "bbbd",
+                   "synshort", "synlong"):
         for name, mode in temps:
             opts = []
             if rng.random() < .5 and mode == "vod":
